@@ -1662,6 +1662,10 @@ class PyCdlib:
             self.enhanced_vd.root_directory_record().set_data_location(loc, loc)
 
         if self.udf_anchors:
+            # The last anchor must sit in the last sector of the volume, even
+            # when the volume is larger than what has been assigned so far
+            # (e.g. a Rock Ridge continuation block that is no longer used).
+            current_extent = max(current_extent, self.pvd.space_size - 1)
             self.udf_anchors[-1].set_extent_location(current_extent,
                                                      self.udf_main_descs.pvds[0].extent_location(),
                                                      self.udf_reserve_descs.pvds[0].extent_location())
